@@ -56,12 +56,17 @@ type sub struct {
 }
 
 type scen struct {
-	prods    [][]call
-	subs     []sub
-	closeAt  int    // ms; -1: no Close
-	timeline bool   // clock moves only at quiescence; exact timing oracle
-	label    string // replaces the rendering of the Batch scripts in the name
-	class    string // finding key; default: by the kinds of subscribers and the mode
+	prods   [][]call
+	subs    []sub
+	closeAt int // ms; -1: no Close
+	// further Close calls from other threads: t > 0: at t ms, whatever the
+	// first one is doing (overlapping it when it is still in progress); t < 0:
+	// once the first Close has returned and not before -t ms. The oracle is
+	// applied at the return of EVERY Close.
+	moreCloses []int
+	timeline   bool   // clock moves only at quiescence; exact timing oracle
+	label      string // replaces the rendering of the Batch scripts in the name
+	class      string // finding key; default: by the kinds of subscribers and the mode
 }
 
 func (s scen) name() string {
@@ -90,6 +95,13 @@ func (s scen) name() string {
 	c := "none"
 	if s.closeAt >= 0 {
 		c = fmt.Sprint("@", s.closeAt)
+	}
+	for _, t := range s.moreCloses {
+		if t < 0 {
+			c += fmt.Sprint("+after", -t)
+		} else {
+			c += fmt.Sprint("+", t)
+		}
 	}
 	mode := "race"
 	if s.timeline {
@@ -256,25 +268,49 @@ func mkExec(s scen) *mc.Exec {
 			}
 		}
 		if s.closeAt >= 0 {
-			mc.GoNamed("closer", func() {
-				sleepUntil(s.closeAt)
-				closeCalled = true
-				closeAtT = mc.ModelNow()
-				b.Close()
+			firstReturned := mc.NewChan[struct{}]()
+			// the oracle at the return of a Close call (any of them)
+			returnedFrom := func(who string) {
 				closeRet = true
 				for i, sr := range subs {
 					if !sr.subBeforeClose {
 						// Subscribe overlapping or following Close: "silently dropped"
 						continue
 					}
-					if !sr.ch.IsClosed() {
-						probeErr = fmt.Sprintf("the channel of subscriber %d is not closed when Close returns", i)
+					if !sr.ch.IsClosed() && probeErr == "" {
+						probeErr = fmt.Sprintf("the channel of subscriber %d is not closed when Close returns to %s", i, who)
 						if v, ok, got := sr.ch.TryRecv(); got && ok {
 							probeErr += fmt.Sprintf(" (a send of value %d is still in progress)", v)
 						}
 					}
 				}
+			}
+			mc.GoNamed("closer", func() {
+				sleepUntil(s.closeAt)
+				closeCalled = true
+				closeAtT = mc.ModelNow()
+				b.Close()
+				returnedFrom("closer")
+				firstReturned.Close()
 			})
+			for k, t := range s.moreCloses {
+				t := t
+				name := fmt.Sprintf("closer%d", k+2)
+				mc.GoNamed(name, func() {
+					if t < 0 {
+						firstReturned.Recv()
+						sleepUntil(-t)
+					} else {
+						sleepUntil(t)
+						if !closeCalled {
+							closeCalled = true
+							closeAtT = mc.ModelNow()
+						}
+					}
+					b.Close()
+					returnedFrom(name)
+				})
+			}
 		}
 		// subscribers that never read leave last in the default order
 		for i, x := range s.subs {
@@ -314,7 +350,7 @@ func mkExec(s scen) *mc.Exec {
 		// Close: every such thread has returned (all subscribers that do not
 		// read have cancelled by now)
 		for _, t := range e.Threads {
-			must := t.Name == "main" || t.Name == "closer" || strings.HasPrefix(t.Name, "prod") ||
+			must := t.Name == "main" || strings.HasPrefix(t.Name, "closer") || strings.HasPrefix(t.Name, "prod") ||
 				strings.HasPrefix(t.Name, "subscribe") || strings.HasPrefix(t.Name, "leave")
 			if must && !t.Finished {
 				return fmt.Errorf("deadlock: %s never returned (blocked on %s); %s", t.Name, t.WaitOn, describe())
@@ -628,6 +664,7 @@ const (
 	classLeave    = "batcher/execute-wedges-on-departed-subscriber"
 	classDuring   = "batcher/departure-during-delivery"
 	classStall    = "batcher/close-with-stalled-subscriber"
+	classMulti    = "batcher/overlapping-close"
 )
 
 func classOf(s scen) string {
@@ -831,10 +868,42 @@ func scaledScenarios() []hx.Scenario {
 			}
 		}
 	}
+	// (G) two and three Close calls from different threads. The first Close
+	// has something to wait for: with "a0 b0 a11 b0" and a stalled / slow
+	// subscriber leaving at 25 ms the 4th delivery (21 ms) is parked on its full
+	// buffer, so Close at 23 ms sits in queue.Close until 25 ms and a second
+	// Close at 24 ms overlaps it; with prompt readers / a reader that never
+	// reads the calls are issued at the same instant (17 ms, every
+	// interleaving) or one after the other. At the return of EVERY Close all
+	// subscriber channels are closed and nothing is sent afterwards.
+	for _, m := range []struct {
+		batch  string
+		subs   []sub
+		first  int
+		more   [][]int
+		nquick int
+	}{
+		{"a0 b0 a11 b0", []sub{{kind: 'x', leaveAt: 25}, p}, 23, [][]int{{24}, {23}, {24, 24}, {-30}, {24, -30}}, 2},
+		{"a0 b0 a11 b0", []sub{p, {kind: 'x', leaveAt: 25}}, 23, [][]int{{24}, {24, 24}}, 0},
+		{"a0 b0 a11 b0", []sub{{kind: 's', k: 1, leaveAt: 25}, p}, 23, [][]int{{24}, {23}}, 1},
+		{"a0 b0", []sub{{kind: 'n'}}, 17, [][]int{{17}, {17, 17}, {-20}}, 1},
+		{"a0 b0", []sub{{kind: 'n'}, p}, 17, [][]int{{17}, {-20}}, 1},
+		{"a0 b4", []sub{p}, 12, [][]int{{12}, {12, 12}, {14}, {-20}}, 2},
+		{"a0 b0", []sub{p, p}, 10, [][]int{{10}, {10, 10}}, 1},
+	} {
+		for k, more := range m.more {
+			for _, tl := range []bool{false, true} {
+				quick := !tl && k < m.nquick
+				add(scen{prods: [][]call{parse(1, m.batch)}, subs: m.subs, closeAt: m.first, moreCloses: more, timeline: tl, class: classMulti}, 2, 3, !quick)
+			}
+		}
+	}
 	// shards are handed out in list order and a part that runs out of budget
 	// skips the tail: the departing-subscriber families go first
 	rank := func(c string) int {
 		switch c {
+		case classMulti:
+			return -1
 		case classDuring, classStall:
 			return 0
 		case classLeave:
